@@ -73,11 +73,14 @@ structure InvA (c : Cfg) (s : St) (h a : Nat) : Prop where
   m1 : s.mem.floorState ≠ 0 → a ≤ s.mem.floorState.toNat ∧ s.mem.keepMax ≤ s.mem.floorState.toNat
   m2 : s.mem.floorState.toNat ≤ max (max a s.mem.keepMax) 1
   m3 : 0 < s.mem.keepMax → s.mem.floorState ≠ 0
+  /-- exactly the persisted bloom windows that are complete and not entirely below the durable floor -/
+  aggIff : ∀ w, s.db.agg w = true ↔ (a / numBlocksPerFilter ≤ w ∧ (w + 1) * numBlocksPerFilter ≤ h + 1)
 
 /-- The invariant. -/
 def Inv (c : Cfg) (s : St) : Prop :=
   match s.db.height with
-  | none => (∀ i n, s.db.has i n = false) ∧ s.job = .idle ∧ s.mem.keepMax = 0 ∧ s.mem.floorState.toNat ≤ 1
+  | none => ((∀ i n, s.db.has i n = false) ∧ ∀ w, s.db.agg w = false) ∧ s.job = .idle ∧ s.mem.keepMax = 0 ∧
+      s.mem.floorState.toNat ≤ 1
   | some h => ∃ a, InvA c s h a
 
 theorem oldest_of_inv {c : Cfg} {s : St} {h a : Nat} (hh : s.db.height = some h) (I : InvA c s h a) :
@@ -106,6 +109,17 @@ theorem inv_unique {c : Cfg} {s : St} {h a a' : Nat} (hh : s.db.height = some h)
   have h2 := oldest_of_inv hh I'
   rw [h1] at h2; exact Option.some.inj h2
 
+/-- For ANY range end, aligned or not: exactly the windows that lie entirely below it are deleted. -/
+theorem aggDeleted_iff (e w : Nat) : aggDeleted e w = true ↔ (w + 1) * numBlocksPerFilter ≤ e := by
+  unfold aggDeleted aggEnd numBlocksPerFilter
+  by_cases h : e < 8192
+  · simp only [h, if_true]
+    constructor
+    · intro hc; cases hc
+    · intro hc; omega
+  · simp only [h, if_false, decide_eq_true_eq]
+    omega
+
 theorem u64_ne_zero_iff (x : UInt64) : x ≠ 0 ↔ x.toNat ≠ 0 := by
   constructor
   · intro h h0; apply h; apply UInt64.toNat_inj.mp; simpa using h0
@@ -117,7 +131,7 @@ theorem ofNat_toNat_of_lt (n : Nat) (h : n < 2 ^ 64) : (UInt64.ofNat n).toNat = 
 /-- Changing only `l1`, `pending`, `sampled` keeps the invariant. -/
 theorem InvA.congr {c : Cfg} {s s' : St} {h a : Nat} (I : InvA c s h a)
     (h1 : s'.db.has = s.db.has) (h2 : s'.job = s.job) (h3 : s'.mem.keepMax = s.mem.keepMax)
-    (h4 : s'.mem.floorState = s.mem.floorState) : InvA c s' h a := by
+    (h4 : s'.mem.floorState = s.mem.floorState) (h5 : s'.db.agg = s.db.agg := by rfl) : InvA c s' h a := by
   have hj : jobOk c s' a := by
     have := I.jobWf; unfold jobOk at this ⊢; rw [h2, h3]; exact this
   exact { hlt := I.hlt, ale := I.ale
@@ -133,7 +147,8 @@ theorem InvA.congr {c : Cfg} {s s' : St} {h a : Nat} (I : InvA c s h a)
           keepLe := by rw [h3]; exact I.keepLe
           m1 := by rw [h3, h4]; exact I.m1
           m2 := by rw [h3, h4]; exact I.m2
-          m3 := by rw [h3, h4]; exact I.m3 }
+          m3 := by rw [h3, h4]; exact I.m3
+          aggIff := by rw [h5]; exact I.aggIff }
 
 /-! ### store -/
 
@@ -200,12 +215,26 @@ theorem inv_store {c : Cfg} {s : St} {h a : Nat} (hh : s.db.height = some h) (I 
   · exact I.m1
   · exact I.m2
   · exact I.m3
+  · intro w
+    have := I.aggIff w
+    have := I.ale
+    simp only [storeBlock, Bool.or_eq_true, Bool.and_eq_true, decide_eq_true_eq, beq_iff_eq]
+    unfold numBlocksPerFilter at *
+    constructor
+    · rintro (⟨h1, h2⟩ | h1)
+      · omega
+      · have := (I.aggIff w).mp h1; unfold numBlocksPerFilter at this; omega
+    · intro h1
+      by_cases h2 : (w + 1) * 8192 ≤ h + 1
+      · exact Or.inr ((I.aggIff w).mpr (by unfold numBlocksPerFilter; omega))
+      · left; omega
 
 theorem inv_store_empty {c : Cfg} {s : St} (hh : s.db.height = none)
-    (I : (∀ i n, s.db.has i n = false) ∧ s.job = .idle ∧ s.mem.keepMax = 0 ∧ s.mem.floorState.toNat ≤ 1) :
+    (I : ((∀ i n, s.db.has i n = false) ∧ ∀ w, s.db.agg w = false) ∧ s.job = .idle ∧ s.mem.keepMax = 0 ∧
+      s.mem.floorState.toNat ≤ 1) :
     (step c s .store).2 = .ok ∧ InvA c (step c s .store).1 0 0 ∧
       (step c s .store).1.db.height = some 0 := by
-  obtain ⟨he, hj, hk, hf⟩ := I
+  obtain ⟨⟨he, hag⟩, hj, hk, hf⟩ := I
   simp only [step, hh]
   refine ⟨by first | rfl | trivial, ?_, by first | rfl | trivial⟩
   constructor
@@ -233,6 +262,10 @@ theorem inv_store_empty {c : Cfg} {s : St} (hh : s.db.height = none)
   · intro _; show 0 ≤ s.mem.floorState.toNat ∧ s.mem.keepMax ≤ s.mem.floorState.toNat; omega
   · show s.mem.floorState.toNat ≤ max (max 0 s.mem.keepMax) 1; omega
   · intro h0; have : 0 < s.mem.keepMax := h0; omega
+  · intro w
+    simp only [storeBlock, hag, Bool.or_false, Bool.and_eq_true, decide_eq_true_eq, beq_iff_eq]
+    unfold numBlocksPerFilter
+    omega
 
 /-! ### revert -/
 
@@ -255,7 +288,14 @@ theorem inv_revert {c : Cfg} {s : St} {h a : Nat} (hh : s.db.height = some h) (I
       right; omega
   have hhist : s.db.has .hist h = true := (I.keepIn h I.ale (Nat.le_refl _) hnd).2.2.2
   have hne : ¬ h = 0 := by omega
-  simp only [step, hh, hsu, hhdr, htxs, hhist, Bool.and_self, Bool.or_true, if_true, revertBlock, hne, if_false]
+  have hflt : revertFilterOk s.db h = true := by
+    unfold revertFilterOk
+    by_cases hb : (h + 1) % numBlocksPerFilter = 0
+    · have := (I.aggIff (h / numBlocksPerFilter)).mpr (by
+        have := I.ale; unfold numBlocksPerFilter at *; omega)
+      simp [this]
+    · simp [hb]
+  simp only [step, hh, hsu, hhdr, htxs, hhist, hflt, Bool.and_self, Bool.or_true, if_true, revertBlock, hne, if_false]
   refine ⟨by first | rfl | trivial, ?_, by first | rfl | trivial⟩
   constructor
   · have := I.hlt; omega
@@ -290,6 +330,22 @@ theorem inv_revert {c : Cfg} {s : St} {h a : Nat} (hh : s.db.height = some h) (I
   · exact I.m1
   · exact I.m2
   · exact I.m3
+  · intro w
+    have := I.ale
+    show (!(decide ((h + 1) % numBlocksPerFilter = 0) && w == h / numBlocksPerFilter) && s.db.agg w) = true ↔ _
+    simp only [Bool.and_eq_true, Bool.not_eq_true', Bool.and_eq_false_iff, decide_eq_false_iff_not,
+      beq_eq_false_iff_ne, ne_eq]
+    constructor
+    · rintro ⟨h1, h2⟩
+      have := (I.aggIff w).mp h2
+      unfold numBlocksPerFilter at *
+      rcases h1 with h1 | h1 <;> omega
+    · intro h1
+      refine ⟨?_, (I.aggIff w).mpr (by unfold numBlocksPerFilter at *; omega)⟩
+      unfold numBlocksPerFilter at *
+      by_cases hb : (h + 1) % 8192 = 0
+      · right; omega
+      · left; exact hb
 
 /-! ### pruneUpto up to the first batch -/
 
@@ -303,11 +359,11 @@ theorem inv_startPrune {c : Cfg} {s : St} {h a : Nat} (hh : s.db.height = some h
   have hm1 := I.m1 hseed
   have hm2 := I.m2
   -- the memory part, common to every branch
-  have hmem : ∀ s' : St, s'.db.has = s.db.has →
+  have hmem : ∀ s' : St, s'.db.has = s.db.has → s'.db.agg = s.db.agg →
       s'.mem.keepMax = max s.mem.keepMax keep.toNat →
       s'.mem.floorState = raiseForPrune s.mem.floorState keep →
       (s'.job = .idle ∨ s'.job = .run a keep.toNat a true ∧ a < keep.toNat) → InvA c s' h a := by
-    intro s' e1 e2 e3 e4
+    intro s' e1 e1' e2 e3 e4
     have hfs' : s'.mem.floorState.toNat = if keep.toNat = 0 then s.mem.floorState.toNat else max s.mem.floorState.toNat keep.toNat := by
       rw [e3]; exact hfs
     have hne : s'.mem.floorState ≠ 0 := by
@@ -321,7 +377,8 @@ theorem inv_startPrune {c : Cfg} {s : St} {h a : Nat} (hh : s.db.height = some h
              hdrKeep := by rw [e1]; exact I.hdrKeep
              keepIn := ?_, h2nLow := ?_
              carve := by rw [e1]; exact I.carve
-             jobWf := ?_, keepLe := ?_, m1 := ?_, m2 := ?_, m3 := fun _ => hne }
+             jobWf := ?_, keepLe := ?_, m1 := ?_, m2 := ?_, m3 := fun _ => hne
+             aggIff := by rw [e1']; exact I.aggIff }
     · intro n ha hn hd
       rw [e1]
       apply I.keepIn n ha hn
@@ -357,7 +414,7 @@ theorem inv_startPrune {c : Cfg} {s : St} {h a : Nat} (hh : s.db.height = some h
   simp only [hold]
   by_cases h1 : a ≥ keep.toNat
   · simp only [h1, if_true]
-    exact ⟨hmem _ rfl rfl rfl (Or.inl hidle), by first | rfl | trivial⟩
+    exact ⟨hmem _ rfl rfl rfl rfl (Or.inl hidle), by first | rfl | trivial⟩
   · simp only [h1, if_false]
     have hhdr : (decide (a > 0) && !s.db.has .hdr (a - 1)) = false := by
       by_cases ha : a > 0
@@ -365,7 +422,7 @@ theorem inv_startPrune {c : Cfg} {s : St} {h a : Nat} (hh : s.db.height = some h
         simp [this]
       · simp [ha]
     simp only [hhdr]
-    exact ⟨hmem _ rfl rfl rfl (Or.inr ⟨rfl, by omega⟩), by first | rfl | trivial⟩
+    exact ⟨hmem _ rfl rfl rfl rfl (Or.inr ⟨rfl, by omega⟩), by first | rfl | trivial⟩
 
 theorem startPrune_empty {s : St} (hh : s.db.height = none) (keep : UInt64) :
     (startPrune s keep).1.db = s.db ∧ (startPrune s keep).1.job = s.job := by
@@ -464,11 +521,13 @@ theorem inv_flush_orig {c : Cfg} {s : St} {h a st en cu : Nat} {fi : Bool} (k : 
   · exact I.m1
   · exact I.m2
   · exact I.m3
+  · exact I.aggIff
 
 /-- One written batch of the REPAIRED procedure: the durable floor moves to the loop cursor. -/
 theorem inv_flush_fixed {c : Cfg} {s : St} {h a st en cu : Nat} {fi : Bool} (k : Nat)
     (I : InvA c s h a) (hjob : s.job = .run st en cu fi) (hfix : c.fixed = true) (hk : cu + k ≤ en) :
-    InvA c { s with db := s.db.del (flushDel c st en cu (cu + k) fi), job := .run st en (cu + k) false } h (cu + k) := by
+    InvA c { s with db := (s.db.del (flushDel c st en cu (cu + k) fi)).pruneAgg (cu + k),
+                    job := .run st en (cu + k) false } h (cu + k) := by
   have hj := I.jobWf
   unfold jobOk at hj
   rw [hjob] at hj
@@ -541,12 +600,26 @@ theorem inv_flush_fixed {c : Cfg} {s : St} {h a st en cu : Nat} {fi : Bool} (k :
     show cu + k ≤ s.mem.floorState.toNat ∧ s.mem.keepMax ≤ s.mem.floorState.toNat; omega
   · have := I.m2; show s.mem.floorState.toNat ≤ max (max (cu + k) s.mem.keepMax) 1; omega
   · exact I.m3
+  · intro w
+    show (s.db.agg w && !aggDeleted (cu + k) w) = true ↔ _
+    have h1 := I.aggIff w
+    have h2 := aggDeleted_iff (cu + k) w
+    cases hd : aggDeleted (cu + k) w with
+    | true =>
+      have := h2.mp hd
+      simp only [Bool.not_true, Bool.and_false, Bool.false_eq_true, false_iff]
+      unfold numBlocksPerFilter at *; omega
+    | false =>
+      have : ¬ (w + 1) * numBlocksPerFilter ≤ cu + k := fun hc => by rw [h2.mpr hc] at hd; cases hd
+      simp only [Bool.not_false, Bool.and_true]
+      rw [h1]
+      unfold numBlocksPerFilter at *; omega
 
 /-- End of a prune call (completed or cancelled) in the ORIGINAL procedure: the trailing range delete. -/
 theorem inv_finish_orig {c : Cfg} {s : St} {h a st en cu : Nat} (m' : Mem)
     (I : InvA c s h a) (hjob : s.job = .run st en cu false) (hfix : c.fixed = false)
     (hm1 : m'.keepMax = s.mem.keepMax) (hm2 : m'.floorState = s.mem.floorState) :
-    InvA c { db := s.db.del (rangeDel cu), mem := m', job := .idle } h cu := by
+    InvA c { db := (s.db.del (rangeDel cu)).pruneAgg cu, mem := m', job := .idle } h cu := by
   have hj := I.jobWf
   unfold jobOk at hj
   rw [hjob] at hj
@@ -605,6 +678,20 @@ theorem inv_finish_orig {c : Cfg} {s : St} {h a st en cu : Nat} (m' : Mem)
     rw [hm1, hm2]; have := I.m2; omega
   · intro hpos; show m'.floorState ≠ 0
     rw [hm2]; apply I.m3; rw [← hm1]; exact hpos
+  · intro w
+    show (s.db.agg w && !aggDeleted cu w) = true ↔ _
+    have h1' := I.aggIff w
+    have h2' := aggDeleted_iff cu w
+    cases hd : aggDeleted cu w with
+    | true =>
+      have := h2'.mp hd
+      simp only [Bool.not_true, Bool.and_false, Bool.false_eq_true, false_iff]
+      unfold numBlocksPerFilter at *; omega
+    | false =>
+      have : ¬ (w + 1) * numBlocksPerFilter ≤ cu := fun hc => by rw [h2'.mpr hc] at hd; cases hd
+      simp only [Bool.not_false, Bool.and_true]
+      rw [h1']
+      unfold numBlocksPerFilter at *; omega
 
 /-- Leaving a prune without touching the database: end of a call in the REPAIRED procedure, or a write
 error / crash at a point where nothing half-done is on disk. -/
@@ -648,7 +735,7 @@ theorem inv_leave {c : Cfg} {s : St} {h a st en cu : Nat} {fi : Bool} (m' : Mem)
           carve := I.carve
           jobWf := by show jobOk c _ a; unfold jobOk; trivial
           keepLe := by show m'.keepMax ≤ h; have := I.keepLe; omega
-          m1 := hm1, m2 := hm2, m3 := hm3 }
+          m1 := hm1, m2 := hm2, m3 := hm3, aggIff := I.aggIff }
 
 theorem inv_leave_idle {c : Cfg} {s : St} {h a : Nat} (m' : Mem)
     (I : InvA c s h a) (hjob : s.job = .idle)
@@ -664,7 +751,7 @@ theorem inv_leave_idle {c : Cfg} {s : St} {h a : Nat} (m' : Mem)
     carve := I.carve
     jobWf := by show jobOk c _ a; unfold jobOk; trivial
     keepLe := by show m'.keepMax ≤ h; have := I.keepLe; omega
-    m1 := hm1, m2 := hm2, m3 := hm3 }
+    m1 := hm1, m2 := hm2, m3 := hm3, aggIff := I.aggIff }
 
 /-- The memory of a fresh process satisfies the memory clauses. -/
 theorem restartMem_ok {c : Cfg} {s : St} {h a : Nat} (hh : s.db.height = some h) (I : InvA c s h a)
@@ -744,21 +831,21 @@ theorem step_facts {c : Cfg} {s : St} (op : Op) (I : Inv c s) (L : Legal c s op)
   | none =>
     rw [hh] at I
     simp only at I
-    obtain ⟨he, hj, hk, hf⟩ := I
+    obtain ⟨⟨he, hag⟩, hj, hk, hf⟩ := I
     have hF : effFloor s = 0 := by unfold effFloor; rw [lo_empty hh, hk]; rfl
     -- steps that leave height, entries, job and the ghost alone
     have same : ∀ (s' : St), (step c s op).1 = s' → s'.db.height = none → s'.db.has = s.db.has →
-        s'.job = .idle → s'.mem.keepMax = 0 → s'.mem.floorState.toNat ≤ 1 →
+        s'.db.agg = s.db.agg → s'.job = .idle → s'.mem.keepMax = 0 → s'.mem.floorState.toNat ≤ 1 →
         ((∀ seed, op ≠ .crash seed) → s.mem.floorState.toNat ≤ s'.mem.floorState.toNat) → StepFacts c s op := by
-      intro s' e0 e1 e2 e3 e4 e5 e6
+      intro s' e0 e1 e2 e2' e3 e4 e5 e6
       refine ⟨?_, ?_, ?_, ?_⟩
-      · rw [e0]; unfold Inv; rw [e1]; exact ⟨by rw [e2]; exact he, e3, e4, e5⟩
+      · rw [e0]; unfold Inv; rw [e1]; exact ⟨⟨by rw [e2]; exact he, by rw [e2']; exact hag⟩, e3, e4, e5⟩
       · rw [e0, hF]; unfold effFloor; rw [lo_empty e1, e4]; simp
       · rw [e0, lo_empty hh]; omega
       · rw [e0]; exact e6
     cases op with
     | store =>
-      have := inv_store_empty (c := c) hh ⟨he, hj, hk, hf⟩
+      have := inv_store_empty (c := c) hh ⟨⟨he, hag⟩, hj, hk, hf⟩
       refine ⟨?_, ?_, ?_, ?_⟩
       · unfold Inv; rw [this.2.2]; exact ⟨0, this.2.1⟩
       · unfold effFloor; rw [lo_of_inv this.2.2 this.2.1]
@@ -767,14 +854,14 @@ theorem step_facts {c : Cfg} {s : St} (op : Op) (I : Inv c s) (L : Legal c s op)
       · intro _; rw [step_store_mem]; exact Nat.le_refl _
     | revert => obtain ⟨h', h1, _⟩ := L; rw [hh] at h1; cases h1
     | writeL1 n =>
-      exact same ⟨{ s.db with l1 := some n }, s.mem, s.job⟩ rfl hh rfl hj hk hf (fun _ => Nat.le_refl _)
-    | evL1 n => exact same s (by simp only [step, hj, hh]) hh rfl hj hk hf (fun _ => Nat.le_refl _)
+      exact same ⟨{ s.db with l1 := some n }, s.mem, s.job⟩ rfl hh rfl rfl hj hk hf (fun _ => Nat.le_refl _)
+    | evL1 n => exact same s (by simp only [step, hj, hh]) hh rfl rfl hj hk hf (fun _ => Nat.le_refl _)
     | evL2 n w => obtain ⟨_, h', h1, _⟩ := L; rw [hh] at h1; cases h1
-    | flush k => exact same s (by simp only [step, hj]) hh rfl hj hk hf (fun _ => Nat.le_refl _)
-    | finish => exact same s (by simp only [step, hj]) hh rfl hj hk hf (fun _ => Nat.le_refl _)
-    | fail => exact same s (by simp only [step, hj]) hh rfl hj hk hf (fun _ => Nat.le_refl _)
+    | flush k => exact same s (by simp only [step, hj]) hh rfl rfl hj hk hf (fun _ => Nat.le_refl _)
+    | finish => exact same s (by simp only [step, hj]) hh rfl rfl hj hk hf (fun _ => Nat.le_refl _)
+    | fail => exact same s (by simp only [step, hj]) hh rfl rfl hj hk hf (fun _ => Nat.le_refl _)
     | crash seed =>
-      refine same ⟨s.db, restartMem s.db seed, .idle⟩ rfl hh rfl rfl rfl ?_ (fun hne => absurd rfl (hne seed))
+      refine same ⟨s.db, restartMem s.db seed, .idle⟩ rfl hh rfl rfl rfl rfl ?_ (fun hne => absurd rfl (hne seed))
       show (restartMem s.db seed).floorState.toNat ≤ 1
       unfold restartMem
       simp only [oldest_empty hh, Option.getD_none]
@@ -785,7 +872,7 @@ theorem step_facts {c : Cfg} {s : St} (op : Op) (I : Inv c s) (L : Legal c s op)
         simp only [if_true]
         simp at this ⊢; omega
     | sample v =>
-      exact same ⟨s.db, { s.mem with sampled := v }, s.job⟩ rfl hh rfl hj hk hf (fun _ => Nat.le_refl _)
+      exact same ⟨s.db, { s.mem with sampled := v }, s.job⟩ rfl hh rfl rfl hj hk hf (fun _ => Nat.le_refl _)
   | some h =>
     rw [hh] at I
     simp only at I
@@ -883,15 +970,18 @@ theorem step_facts {c : Cfg} {s : St} (op : Op) (I : Inv c s) (L : Legal c s op)
             · exact ⟨by omega, fun _ => h5⟩
             · rename_i hf; exact ⟨by omega, fun hf' => absurd hf' hf⟩
           have hr := loopReads_ok IA cu k hacu.1 (by omega)
-          have hstep : (step c s (.flush k)).1 =
-              (⟨s.db.del (flushDel c st en cu (cu + k) fi), s.mem, .run st en (cu + k) false⟩ : St) := by
-            simp only [step, hjob, hk, if_true, hr]
           cases hfix : c.fixed with
           | false =>
+            have hstep : (step c s (.flush k)).1 =
+                (⟨s.db.del (flushDel c st en cu (cu + k) fi), s.mem, .run st en (cu + k) false⟩ : St) := by
+              simp only [step, hjob, hk, if_true, hr, hfix, Bool.false_eq_true, if_false]
             exact keepH ⟨s.db.del (flushDel c st en cu (cu + k) fi), s.mem, .run st en (cu + k) false⟩ hstep hh
               (inv_flush_orig k IA hjob hfix hk) (by show s.mem.keepMax ≤ _; omega)
               (fun _ => Nat.le_refl _)
           | true =>
+            have hstep : (step c s (.flush k)).1 =
+                (⟨(s.db.del (flushDel c st en cu (cu + k) fi)).pruneAgg (cu + k), s.mem, .run st en (cu + k) false⟩ : St) := by
+              simp only [step, hjob, hk, if_true, hr, hfix]
             have hI := inv_flush_fixed k IA hjob hfix hk
             have ha := hacu.2 hfix
             exact facts_some hh IA (by rw [hstep]; exact hh) (by rw [hstep]; exact hI) (by omega) (by omega)
@@ -918,7 +1008,7 @@ theorem step_facts {c : Cfg} {s : St} (op : Op) (I : Inv c s) (L : Legal c s op)
             obtain ⟨j1, j2, j3, _, j5⟩ := hj
             have j5 : a = st := by simpa using j5
             let m' : Mem := { s.mem with sampled := umax s.mem.sampled (UInt64.ofNat cu) }
-            have hstep : (step c s .finish).1 = (⟨s.db.del (rangeDel cu), m', .idle⟩ : St) := by
+            have hstep : (step c s .finish).1 = (⟨(s.db.del (rangeDel cu)).pruneAgg cu, m', .idle⟩ : St) := by
               simp only [step, hjob, Bool.false_eq_true, if_false, hfix]; rfl
             have hI := inv_finish_orig m' IA hjob hfix rfl rfl
             exact facts_some hh IA (by rw [hstep]; exact hh) (by rw [hstep]; exact hI) (by omega) (by omega)
